@@ -311,7 +311,9 @@ func MergeHeaders(src []*Header) (h *Header, reflinks [][]*Reference, err error)
 	h.GroupOrder = GroupUnspecified
 	for i, add := range src {
 		if i == 0 {
-			reflinks[i] = h.refs
+			// A list of its own: h.refs is edited in place
+			// by RemoveReference.
+			reflinks[i] = append([]*Reference(nil), h.refs...)
 			continue
 		}
 		links := make([]*Reference, len(add.refs))
